@@ -67,7 +67,10 @@ pub fn generate(prop: &str, rng: &mut Rng, tier: Tier) -> Scenario {
     let mut mix = Mix::draw(&mut g, prop);
     // C28: rare receipt-flood scenarios up to the 65 535-receipt limit. Their contracts are quiet
     // (no receipts of their own), so that a callee's RET / RETD / RVRT lands on a reserved slot.
-    let flood_run = prop == "C28" && g.chance(1, if tier == Tier::Thorough { 200 } else { 1200 });
+    // C29 gets them too (run by one uninterrupted transact): the reserved receipt slots are where
+    // "appending a panic receipt cannot fail" style assumptions live.
+    let flood_run = (prop == "C28" && g.chance(1, if tier == Tier::Thorough { 200 } else { 1200 }))
+        || (prop == "C29" && g.chance(1, if tier == Tier::Thorough { 800 } else { 2500 }));
     if flood_run {
         mix.log = 0;
         mix.transfer = 0;
@@ -267,7 +270,7 @@ pub fn generate(prop: &str, rng: &mut Rng, tier: Tier) -> Scenario {
     plan.reuse_vm = s.bool();
     if prop == "C29" {
         for t in 0..ntx {
-            if s.below(4) == 0 {
+            if flood_run || s.below(4) == 0 {
                 plan.plain.push(t as u8);
             }
         }
